@@ -7,6 +7,7 @@ import MediaSan.Lemmas.NonInterf
 import MediaSan.Lemmas.RawSim
 import MediaSan.Lemmas.ScanReads
 import MediaSan.Lemmas.WebpMeter
+import MediaSan.Lemmas.CodeSize
 namespace MediaSan.Props.C10
 open MediaSan
 
@@ -122,6 +123,40 @@ theorem C10_webp_request_bound (cfg : Webp.Config) (fuel : Nat) : ReqBound 16 (W
     one pad byte of reading, whatever its declared size -/
 theorem C10_webp_skipped_not_read (r : Webp.RS) (k : Nat) : ReqBound 1 (Webp.skipData r k) :=
   Webp.skipData_reads_pad_only r k
+
+/-- webpsan's lossless validator, what it holds: every prefix code it reads - for every payload, bit position and
+    alphabet - is a trie of fewer than 2·max(alphabet, 2) nodes: the code-length vector is cut off at the alphabet size
+    (lossless.rs:573-601), the canonical symbol table is no longer than the vector, and a finalized trie is a full
+    binary tree over the table.  (`BSafe m Q`: from every payload and position, `m` returns a value with `Q` or a
+    non-panic error.) -/
+theorem C10_webp_code_size (cfg : Vp8l.LCfg) (alphabet : Nat) :
+    Vp8l.BSafe (Vp8l.readPrefixCode cfg alphabet) (fun c => c.tree.nodes + 1 ≤ 2 * max alphabet 2) :=
+  Vp8l.readPrefixCode_sized cfg alphabet
+
+/-- ... the colour-cache order that sizes the green alphabet is at most `cacheOrderMax` = 11 whenever the validator
+    goes on ... -/
+theorem C10_webp_cache_order :
+    Vp8l.BSafe Vp8l.readColorCache (fun c => ∀ o, c = some o → o ≤ Generated.cacheOrderMax) :=
+  Vp8l.readColorCache_bounded
+
+/-- ... so a whole prefix-code group - the only heap object besides the fixed bit buffer (C19) that the validator
+    keeps between two reads; groups are read one after the other and dropped, `readGroups` - has fewer than 6272 trie
+    nodes (2·(280 + 2048) + 3·2·256 + 2·40): a constant that does not depend on the declared image dimensions, on
+    chunk sizes or on the number of groups the meta prefix image asks for.  The transient code-length code has at
+    most 37 nodes. -/
+theorem C10_webp_group_size (cfg : Vp8l.LCfg) (cache : Option Nat)
+    (h : ∀ o, cache = some o → o ≤ Generated.cacheOrderMax) :
+    Vp8l.BSafe (Vp8l.readGroup cfg cache) (fun g => g.nodes ≤ 6272) :=
+  Vp8l.readGroup_sized cfg cache h
+
+theorem C10_webp_clc_size (cfg : Vp8l.LCfg) :
+    Vp8l.BSafe (Vp8l.readCodeLengthCode cfg) (fun c => c.tree.nodes + 1 ≤ 2 * 19) :=
+  Vp8l.readCodeLengthCode_sized cfg
+
+-- Non-vacuity: a two-symbol code is built (3 nodes), and a group is really returned on a concrete payload
+example : (match Vp8l.newCode [(0, 1), (1, 1)] with | .ok c => c.tree.nodes | .error _ => 0) = 3 := by decide
+example : (match Vp8l.readGroup {} none (ByteArray.mk #[0x13, 0x30, 0x01, 0x13, 0x30, 0x01, 0x13, 0x00]) 0 with
+    | .ok (g, _) => g.nodes | .error _ => 0) = 15 := by decide +kernel
 
 def tinyFile : Bytes :=
   [0,0,0,20, 0x66,0x74,0x79,0x70, 0x69,0x73,0x6f,0x6d, 0,0,0,0, 0x69,0x73,0x6f,0x6d,
